@@ -24,7 +24,8 @@ REGISTRY = []
 
 class LoopSpec:
     def __init__(self, ordinal, invariants, modifies=(), decreases=None, havoc_kinds=None, index=None,
-                 keep=(), keep_index=False, cut_concrete=False):
+                 keep=(), keep_index=False, cut_concrete=False, havoc_with=None):
+        self.havoc_with = havoc_with or {}      # target -> fn(interp, env): contract-specific way of forgetting a location
         self.cut_concrete = cut_concrete    # cut even when the iterable is concrete (body forks on symbolic data)
         self.ordinal = ordinal
         self.invariants = list(invariants)      # [(id, text)]
@@ -37,7 +38,9 @@ class LoopSpec:
 
 
 class Contract:
-    def __init__(self, path, qualname, serves=(), unwrap=0, modular=False, name=None, src=None):
+    def __init__(self, path, qualname, serves=(), unwrap=0, modular=False, name=None, src=None, group=None, uses=()):
+        self.group = group          # a modular contract with a group replaces calls only in contracts that `uses` it
+        self.uses = tuple(uses)
         self.src = src              # lemma: ghost function text (calls the real code), run in the module's namespace
         self.path = path
         self.qualname = qualname
@@ -669,6 +672,7 @@ def verify_contract(I, c, timeout_ms=10000, only_case=None):
 
             def thunk():
                 b = Builder(I, case)
+                I.active_groups = set(c.uses)
                 I.ghost['contract_name'] = c.name
                 I.ghost['Dev'] = PyList()       # requests that reached a device stub
                 I.ghost['Clk'] = PyList()       # requests that reached a clock stub
